@@ -368,12 +368,18 @@ impl Interpreter {
             OpCodes::OP_DIV => {
                 let a = state.stack.pop_bigint()?;
                 let b = state.stack.pop_bigint()?;
+                if b == BigInt::from(0) {
+                    return Err(InterpreterError::InvalidStackOperation("OP_DIV cannot divide by zero"));
+                }
 
                 state.stack.push_bigint(a / b)?;
             }
             OpCodes::OP_MOD => {
                 let a = state.stack.pop_bigint()?;
                 let b = state.stack.pop_bigint()?;
+                if b == BigInt::from(0) {
+                    return Err(InterpreterError::InvalidStackOperation("OP_MOD cannot divide by zero"));
+                }
 
                 state.stack.push_bigint(a % b)?;
             }
